@@ -4,6 +4,7 @@ CONSTANTS
   MaxCycles = 3
   ExportScripts = FALSE
   EnableFaults = FALSE
+  EnableRestart = FALSE
   SrcVals = {0, 3, 255}
   Dts = {2}
 VIEW View
